@@ -355,3 +355,6 @@ def run(repo: Repo, rep: Report, tier: str) -> None:
     share_rules(repo, rep, tier, "c10", {"C10.R1": "C12.R9", "C10.R2": "C12.R10", "C10.R3": "C12.R11"},
                 "explicit enum / flag values are computed by the expression evaluator: a mis-evaluated value renumbers every following member")
     mask_rule(repo, rep, "C12.R12")
+    from .compiled import compiled_fold_rule
+
+    compiled_fold_rule(repo, rep, "C12.R13", tier)
